@@ -185,18 +185,28 @@ From Corgi Require Import Lib.OptionMonad Model.Scalar Model.Arr Model.Engine Mo
 bookkeeping.  [gd_pre]: unfrozen parameters are well formed and their gradient has their length (what C03
 guarantees).  [gd_post] spells out: frozen parameters untouched; unfrozen ones re-bound to a fresh tracked node of
 the same dimensions with values x - lr*g of THEIR OWN gradient, no gradient; old nodes only lose their gradient.
+"Frozen" is decided as corgi decides it, while walking the list ([frozen_flags]): no gradient, or the node's gradient
+was already taken by an earlier handle of the same node (tied weights).
 No ring assumption: the step is the literal [fsub x (fmul lr g)].""",
     items=[
         ("C13_update", "gd_update_spec", "the update of any parameter list, any shapes, any frozen subset"),
         ("C13_closed_form", "gd_update_closed", "closed form of the resulting state"),
         ("C13_all_frozen", "gd_update_all_frozen", "without gradients nothing changes"),
         ("C13_model_update", "model_update_spec", "Model::update re-binds the layer parameters position-wise"),
+        ("C13_tied_parameters", "gd_update_alias_spec", "lists holding several handles of one node (tied weights): no distinctness hypothesis; the first handle of a node is stepped with the node's own gradient, later handles are returned untouched, every listed node ends without a gradient - aliasing never shifts the flat buffers"),
+        ("C13_frozen_rule", "frozen_flags_false_iff", "a parameter is stepped exactly when it holds a gradient and no earlier handle of the list names the same node (corgi decides this while walking the list, taking each gradient as it goes)"),
+        ("C13_frozen_rule_distinct", "frozen_flags_nodup", "for distinct nodes the rule is simply: frozen iff no gradient"),
+        ("C13_stepped_nodes_distinct", "unfrozen_nodup", "the stepped nodes are pairwise distinct, whatever the list"),
     ],
     extra="""
 (** Why the length hypothesis matters (and hence C03): with a gradient one element too long the
     second parameter is stepped with the wrong gradient elements. *)
 Check OptimExamples.gd_update_refuted_without_lengths.
 Check OptimExamples.gd_update_example.
+(** tied weights [w; clone of w; b] over the integers, lr = 2: w stepped once, the clone untouched, b stepped with
+    its own gradient *)
+Check OptimExamples.gd_update_alias_example.
+Check OptimExamples.gd_update_alias_instance.
 """)
 
 TABLE["C01"] = dict(
@@ -696,7 +706,7 @@ TABLE["C19rounding"] = dict(
 From Flocq Require Import Core.
 From Corgi Require Import Lib.OptionMonad Lib.Sums Model.Scalar Model.RealScalar Model.RoundedScalar Model.Arr Model.SlicedOp
      Model.Elementwise Model.Linalg Model.Image Proofs.ArrFacts Proofs.BroadcastDims Proofs.SpecDefs Proofs.MatmulSpec
-     Proofs.ConvSpec Proofs.RealDerivs Proofs.RoundingSpec.
+     Proofs.ConvSpec Proofs.RealDerivs Proofs.RoundingSpec Proofs.RoundingCompose.
 Import ListNotations.
 Open Scope R_scope.""",
     intro="""[rounded_ops emin prec] is the model's scalar instance over the reals in which every arithmetic operation is the
@@ -708,8 +718,9 @@ exact order corgi adds in: [C19_sum_error], [C19_dot_error]; lifted to the array
 real-number result of the SAME model function ([C19_matmul_error], [C19_conv_error], [C19_sum_op_error],
 [C19_elementwise_error]); and the statement the property makes - binary32 against binary64 on the same data -
 [C19_matmul_f32_vs_f64]: |v32 - v64| <= (gamma_24(n+1) + gamma_53(n+1)) * (|c| + sum |a_k b_k|) + underflow terms.
-NOT covered: compositions of operations (softmax, whole forward passes, gradients), which remain validated by the
-differential run against the --features f32 build.  Axioms: Coq's Reals axioms and Classical_Prop.classic (Flocq adds none).""",
+Compositions ([Proofs/RoundingCompose.v]): a dense layer's pre-activation, the mean-squared-error cost and softmax rows
+(with exp of a stated relative accuracy on the data's range).  NOT covered: whole multi-layer forward passes and
+gradients, which remain validated by the differential run against the --features f32 build.  Axioms: Coq's Reals axioms and Classical_Prop.classic (Flocq adds none).""",
     items=[
         ("C19_round_error", "rn_err", "one rounding: |rnd x - x| <= u |x| + eta"),
         ("C19_add_error", "fadd_err", "addition of representable numbers: purely relative error"),
@@ -724,6 +735,13 @@ differential run against the --features f32 build.  Axioms: Coq's Reals axioms a
         ("C19_conv_two_formats", "conv_two_formats", "convolution in two formats"),
         ("C19_sum_two_formats", "a_sum_two_formats", "sum(k) in two formats"),
         ("C19_theta_le_gamma", "theta_le_gamma", "(1+u)^k - 1 <= k u / (1 - k u)"),
+        ("C19_dense_layer_error", "dense_rounding_gamma", "composition: a dense layer's pre-activation b_j + sum_k x_ik w_jk exactly as matmul-with-additive-term computes it: gamma_(n+1) * (|b_j| + sum |x_ik w_jk|), plus an underflow term that vanishes when no product underflows"),
+        ("C19_dense_layer_f32_vs_f64", "dense_f32_f64", "the dense pre-activation in binary32 against binary64 on the same data"),
+        ("C19_mse_error", "mse_rounding_gamma", "composition: the mean-squared-error cost in corgi's literal order (difference, square, scale by 1/N, left-fold sum): gamma_(N+4) * mse + underflow"),
+        ("C19_mse_f32_vs_f64", "mse_f32_f64", "the mse cost in binary32 against binary64"),
+        ("C19_mse_is_mean_square", "a_mse_real", "over the reals the literal composition is sum (t-y)^2 / N"),
+        ("C19_softmax_error", "softmax_rounding", "composition: softmax rows with an exp of relative accuracy eps on the data's range: every output within a stated relative bound of the exact softmax (plus eta), and every computed row sums to 1 within softmax_rel n + n eta"),
+        ("C19_softmax_error_ideal_exp", "softmax_rounding_ideal", "the same with the correctly rounded exp of the rounded instance (eps = u)"),
     ])
 
 TABLE["C14exact"] = dict(
